@@ -144,6 +144,30 @@ def translate_u_and_f(outer: ast.FunctionDef):
     return lines
 
 
+def translate_u_and_f_last(outer: ast.FunctionDef):
+    """the `if is_last_period:` branch: u_and_f returns current_u_and_f at the states and choices"""
+    inner = None
+    for st in outer.body:
+        if isinstance(st, ast.If) and unp(st.test) == "is_last_period" and st.orelse:
+            for s2 in st.body:
+                if isinstance(s2, ast.FunctionDef) and s2.name == "u_and_f":
+                    inner = s2
+    if inner is None:
+        fail(outer, "no `if is_last_period:` branch defining u_and_f")
+    if [unp(d) for d in inner.decorator_list] != ["with_signature(args=arg_names)"]:
+        fail(inner, "decorators of the last-period u_and_f")
+    body = [unp(s) for s in inner.body if not is_docstring(s)]
+    expected = ["kwargs = all_as_kwargs(args, kwargs, arg_names=arg_names)",
+                "states = {k: v for k, v in kwargs.items() if k in state_variables}",
+                "choices = {k: v for k, v in kwargs.items() if k in choice_variables}",
+                f"return current_u_and_f({CALL_ARGS})"]
+    if body != expected:
+        fail(inner, "the last-period u_and_f is not `return current_u_and_f(**states, **choices, ...)`")
+    return ["  let states := select state_variables kwargs in",
+            "  let choices := select choice_variables kwargs in",
+            "  current_u_and_f (states ++ choices) period params."]
+
+
 def translate_multiply_weights(fn: ast.FunctionDef):
     body = [s for s in fn.body if not is_docstring(s)]
     if len(body) != 3:
@@ -180,6 +204,7 @@ def main():
     try:
         tree = ast.parse((src / "model_functions.py").read_text())
         lines = translate_u_and_f(find_func(tree, "get_utility_and_feasibility_function"))
+        last_lines = translate_u_and_f_last(find_func(tree, "get_utility_and_feasibility_function"))
         outer_code = translate_multiply_weights(find_func(tree, "get_multiply_weights"))
         text = HEADER + f"""
 (* get_multiply_weights(stochastic_variables) *)
@@ -206,8 +231,12 @@ Definition select (names : list string) (kw : list (string * qarr)) : list (stri
   filter (fun kv => mem_str (fst kv) names) kw.
 
 Definition u_and_f (kwargs : list (string * qarr)) (params : P) : Q * F :=
-""" + "\n".join(lines) + "\nEnd UAndF.\n"
-        print("ModelFunctions.v: u_and_f (not last period), get_multiply_weights")
+""" + "\n".join(lines) + """
+
+(* the function built for the last period *)
+Definition u_and_f_last (kwargs : list (string * qarr)) (params : P) : Q * F :=
+""" + "\n".join(last_lines) + "\nEnd UAndF.\n"
+        print("ModelFunctions.v: u_and_f (not last period), u_and_f (last period), get_multiply_weights")
     except (TranslationError, SyntaxError, OSError) as e:
         status = 3
         print(f"TRANSLATION-REFUSED ModelFunctions.v: {e}")
